@@ -777,6 +777,7 @@ func (t *Transport) Clone() *Transport {
 	if t.t2 != nil {
 		tt.t2 = &h2internal.Transport{
 			Options:                    &tt.Options,
+			AllowHTTP:                  t.t2.AllowHTTP,
 			MaxHeaderListSize:          t.t2.MaxHeaderListSize,
 			StrictMaxConcurrentStreams: t.t2.StrictMaxConcurrentStreams,
 			ReadIdleTimeout:            t.t2.ReadIdleTimeout,
